@@ -228,7 +228,7 @@ def compress_ids(items):
                 seen.add(int(f[1]))
             for x in f:
                 if x[:2] in ('Pi', 'Pe'):
-                    seen.add(int(x[2:]))
+                    seen.add(int(x[2:].rstrip('!?r')))
         for e in ents:
             seen.add(int(e[0]))
     rank = {v: k + 1 for k, v in enumerate(sorted(x for x in seen if x < UNKNOWN_BASE))}
@@ -241,7 +241,8 @@ def compress_ids(items):
                 f[1] = str(rank.get(int(f[1]), int(f[1])))
             for j, x in enumerate(f):
                 if x[:2] in ('Pi', 'Pe'):
-                    f[j] = x[:2] + str(rank.get(int(x[2:]), int(x[2:])))
+                    num, tail = x[2:].rstrip('!?r'), x[2 + len(x[2:].rstrip('!?r')):]
+                    f[j] = x[:2] + str(rank.get(int(num), int(num))) + tail
             outs.append(':'.join(f))
         head = kind if kind not in ('R', 'O') else kind + ':' + '|'.join(outs)
         l2 = '!'.join('%s:%s' % (rank.get(int(e[0]), int(e[0])), e[1]) for e in ents) if ents else ls
